@@ -131,7 +131,11 @@ func (H) Generate(r *simrt.Rand, tier string) any {
 	}
 	for i := 0; i < nc; i++ {
 		var c []Op
-		for j := 0; j < 1+r.Intn(4); j++ {
+		maxOps := 4
+		if tier == "thorough" && r.Intn(3) == 0 {
+			maxOps = 7
+		}
+		for j := 0; j < 1+r.Intn(maxOps); j++ {
 			c = append(c, genOp(r, s.U))
 		}
 		s.Clients = append(s.Clients, c)
